@@ -139,6 +139,77 @@ def scenario_unconnected(R, N, client_kind):
     return main
 
 
+def scenario_reconnect(R, N, client_kind):
+    """send A (one packet) stalls in drain() while it holds the send lock, send B waits for the lock, and meanwhile the peer ends
+    the stream: the receive path reconnects (link 1) before A's drain returns.  B is written when the client is CONNECTED on link 1."""
+    tr = {"conns": [], "states": [], "writes": [], "kinds": [], "readers": [], "cfg": {}, "sending": False, "stalled": False}
+
+    async def main(loop):
+        async def open_connection(host, port):
+            i = len(tr["conns"])
+            tr["conns"].append(loop.time())
+            r = asyncio.StreamReader()
+            tr["readers"].append(r)
+            script = {}
+            if i == 0:
+                def susp(w):
+                    if tr["sending"] and not tr["stalled"]:
+                        tr["stalled"] = True
+                        return 7.0
+                    return False
+                script["drain"] = susp
+            return r, aio.FakeWriter(tr["writes"], i, script)
+        aio.install(R, open_connection)
+        c = aio.make_client(R, client_kind)
+
+        async def st(s):
+            tr["states"].append(s.name)
+            if s.name == "CONNECTED":
+                await asyncio.sleep(0.3)
+                tr["cfg"][len(tr["conns"]) - 1] = len([1 for cid, b in tr["writes"] if cid == len(tr["conns"]) - 1])
+        c.set_status_callback(st)
+        await c.connect()
+        await asyncio.sleep(0.5)
+        kb = ("single", "fast")[EX().choose(2)]
+        tr["kinds"] = ["single", kb]
+        msgs = [make_msg(N, "single", 10), make_msg(N, kb, 11)]
+        tr["msgs"] = msgs
+        tr["sending"] = True
+        tasks = [asyncio.ensure_future(c.send(m)) for m in msgs]
+        await asyncio.sleep((0.2, 1.0)[EX().choose(2)])
+        tr["readers"][0].feed_eof()
+        await asyncio.gather(*tasks)
+        tr["after_sends"] = (c.state.name, len(tr["conns"]))
+        await asyncio.sleep(3.0)
+        tr["final"] = c.state.name
+        await c.close()
+        return tr
+    return main
+
+
+def judge_reconnect(tr, res, env, N, client_kind):
+    if env.livelock:
+        return ["event loop starved"]
+    if isinstance(res, BaseException):
+        return ["scenario ended with %r" % (res,)]
+    ref = encode_ref(N, client_kind, tr["msgs"])
+    if ref[0] is None or ref[1] is None:
+        return []
+    if len(tr["conns"]) < 2 or tr["after_sends"][0] != "CONNECTED":
+        return []          # the reconnection had not finished when the sends ended: not the situation this scenario is about (C13 judges recovery)
+    problems = []
+    w0 = [b for cid, b in tr["writes"] if cid == 0]
+    w1 = [b for cid, b in tr["writes"] if cid == 1]
+    if any(p in w0 for p in ref[1]) or not all(p in w1 for p in ref[1]) or [b for b in w1 if b in ref[1]] != ref[1]:
+        problems.append("a send() that waited while the client reconnected: its packets are not on the link the client is CONNECTED on "
+                        "(old link carries %d of them, new link %d of %d; message kinds %r)" % (sum(p in w0 for p in ref[1]), sum(p in w1 for p in ref[1]), len(ref[1]), tr["kinds"]))
+    states = [s for s in tr["states"] if s != "CLOSED"]
+    if tr["final"] != "CONNECTED" or len(tr["conns"]) != 2 or states != ["CONNECTED", "DISCONNECTED", "CONNECTED"]:
+        problems.append("a send() that waited while the client reconnected disturbed the new connection: notifications %r, %d connection(s), final state %s" % (
+            tr["states"], len(tr["conns"]), tr["final"]))
+    return problems
+
+
 def judge_unconnected(tr, res, env):
     if env.livelock:
         return ["event loop starved"]
@@ -202,6 +273,8 @@ def _worker(job):
     def h():
         if werr == "unconnected":
             return aio.run(scenario_unconnected(R, N, client_kind))
+        if werr == "reconnect":
+            return aio.run(scenario_reconnect(R, N, client_kind))
         return aio.run(scenario(R, N, client_kind, nsend, werr))
     try:
         for pa, ex in explore_iter(h, max_paths=200000, fuel=10 ** 9):
@@ -213,6 +286,10 @@ def _worker(job):
             tr = res if isinstance(res, dict) else {}
             if werr == "unconnected":
                 pr = judge_unconnected(tr, res, env)
+            elif werr == "reconnect":
+                pr = judge_reconnect(tr, res, env, N, client_kind)
+                if not pr and isinstance(res, dict) and not (len(tr["conns"]) >= 2 and tr["after_sends"][0] == "CONNECTED"):
+                    rep.error("%r: the reconnect-during-send situation was not reached (%r)" % (job, tr.get("after_sends")))
             else:
                 pr = judge(tr, res, env, N, client_kind, werr) if isinstance(res, dict) or isinstance(res, BaseException) else ["no trace"]
             distinct.add((tuple(tr.get("kinds", ())), tuple(tr.get("drains", ())), tr.get("werr")))
@@ -235,10 +312,11 @@ def run(tier, seed):
     rep.functions = ["ioclient.AsyncIOClient.send", "the clients' _encode_impl", "encoder.encode_ebyte / encode_yacht_devices / encode_usb / _encode_fast_message",
                      "ioclient._update_state / connect (after a write error)"]
     rep.bounds = {"senders": "%d concurrent send() calls" % ns, "message kinds": list(KINDS), "flow control": "every pattern of suspending / non-suspending drain() calls; the first drain() may stall for 7 s",
-                  "write errors": "at the 1st, 2nd or 3rd packet of a 2-frame + 1-frame pair of messages; reported by write() or by the following drain(); as %s" % ", ".join(n_ for n_, _ in WRITE_ERRORS), "clients": list(SENDERS)}
+                  "write errors": "at the 1st, 2nd or 3rd packet of a 2-frame + 1-frame pair of messages; reported by write() or by the following drain(); as %s" % ", ".join(n_ for n_, _ in WRITE_ERRORS), "clients": list(SENDERS),
+                  "reconnection during send": "send A stalls 7 s in drain() holding the send lock, send B (1 or 2 frames) waits, the peer ends the stream 0.2 s / 1 s later and the client reconnects"}
     rep.stubs = ["StreamWriter -> recording stub whose drain() suspension and write failure are chosen by the explorer"]
     rep.outside = ["more than %d concurrent senders" % ns, "messages with more than 2 frames"]
-    jobs = [(k, ns, False) for k in SENDERS] + [(k, 2, True) for k in SENDERS if k != "actisense"] + [(k, 1, "unconnected") for k in SENDERS]
+    jobs = [(k, ns, False) for k in SENDERS] + [(k, 2, True) for k in SENDERS if k != "actisense"] + [(k, 1, "unconnected") for k in SENDERS] + [(k, 2, "reconnect") for k in SENDERS if k != "actisense"]
     parts = run_jobs(rep, _worker, jobs, timeout_s=800)
     n = sum(p["n"] for p in parts if p and "n" in p)
     dn = sum(p["distinct"] for p in parts if p and "distinct" in p)
@@ -275,10 +353,13 @@ def replay_inproc(r):
     Rp = types.SimpleNamespace(ioclient=N.ioclient, decoder=N.decoder, encoder=N.encoder)
     explorer._STACK.append(_Replayer(r["decisions"]))
     try:
-        res, env = aio.run(scenario_unconnected(Rp, N, r["client"]) if r["werr"] == "unconnected" else scenario(Rp, N, r["client"], r["nsend"], r["werr"]))
+        res, env = aio.run(scenario_unconnected(Rp, N, r["client"]) if r["werr"] == "unconnected" else scenario_reconnect(Rp, N, r["client"]) if r["werr"] == "reconnect"
+                           else scenario(Rp, N, r["client"], r["nsend"], r["werr"]))
     finally:
         explorer._STACK.pop()
         loader.TICK_HOOK[0] = None
     if r["werr"] == "unconnected":
         return {"problems": judge_unconnected(res if isinstance(res, dict) else {}, res, env)}
+    if r["werr"] == "reconnect":
+        return {"problems": judge_reconnect(res if isinstance(res, dict) else {}, res, env, N, r["client"])}
     return {"problems": judge(res if isinstance(res, dict) else {}, res, env, N, r["client"], r["werr"])}
